@@ -122,6 +122,16 @@ static std::vector<ItemV> parse_items(const std::string& s)
     return r;
 }
 
+// a value whose inserter puts the stream into the failed state and writes nothing
+struct SetsFail
+{
+};
+static std::ostream& operator<<(std::ostream& os, const SetsFail&)
+{
+    os.setstate(std::ios_base::failbit);
+    return os;
+}
+
 struct Lazy
 {
     int id;
@@ -153,6 +163,9 @@ static void insert_one(S&& s, const ItemV& it, Cont cont)
         break;
     case 'd':
         cont(std::forward<S>(s) << std::stod(it.text));
+        break;
+    case 'x':
+        cont(std::forward<S>(s) << SetsFail{});
         break;
     case 'L':
         if (it.id % 2)
